@@ -171,6 +171,24 @@ AccessV(l, r) ==
        [] OTHER -> U
   ELSE U
 
+(* ---------------------------------------------------------------- identity of two read-backs *)
+\* two values read back through the same getters are compared exactly, but kind by kind: TLC cannot compare records whose
+\* fields hold values of different kinds (an integer with a sequence)
+RECURSIVE Ident(_, _)
+Ident(a, b) ==
+  IF a.t # b.t THEN FALSE
+  ELSE CASE a.t \in {"unit", "true", "false", "none", "deep"} -> TRUE
+         [] a.t \in {"int", "char", "byte", "ext"} -> a.v = b.v
+         [] a.t = "float" -> a.s = b.s
+         [] a.t = "sym" -> a.n = b.n
+         [] a.t = "type" -> a.v = b.v
+         [] a.t = "expr" -> a.j = b.j
+         [] a.t \in {"str", "bytes"} -> a.v = b.v
+         [] a.t \in {"list", "symlist"} -> Len(a.v) = Len(b.v) /\ \A i \in DOMAIN a.v : Ident(a.v[i], b.v[i])
+         [] a.t \in {"pair", "concat", "range", "slice", "partial"} -> Ident(a.l, b.l) /\ Ident(a.r, b.r)
+         [] a.t = "bad" -> FALSE          \* a value that cannot be read back is never "the same"
+         [] OTHER -> a = b
+
 (* ---------------------------------------------------------------- ordering (C12), on what the statement orders *)
 RECURSIVE LexCmp(_, _, _)
 LexCmp(xs, ys, i) == IF i > Len(xs) \/ i > Len(ys) THEN (IF Len(xs) < Len(ys) THEN "lt" ELSE IF Len(xs) = Len(ys) THEN "eq" ELSE "gt")
